@@ -217,7 +217,7 @@ def rule_r2(ctx) -> RuleResult:
                            "the nowiki cookie is not passed through untouched (it is expanded, recursed into or replaced)", arm[0].lineno))
     # in expand_args the generic `if nowiki: parts.append(ch); continue` must precede the kind dispatch
     # final consumers
-    mr = ctx.fn("core.Wtp._finalize_expand.magic_repl")
+    mr_name, mr = X.cookie_replacer(ctx)
     arms = X.kind_arms(mr, ctx=ctx)
     if "N" in arms:
         rets = [n for st in arms["N"] for n in ast.walk(st) if isinstance(n, ast.Return) and n.value is not None]
@@ -431,7 +431,7 @@ def rule_r7(ctx) -> RuleResult:
     string merge, never from inside the recursive expansion (where the text it produces would be
     substituted into template bodies and re-interpreted, trimmed or case-mapped)."""
     rr = RuleResult("C15.R7", "cookies are decoded only by the final consumers, never inside the recursive expansion", min_instances=2)
-    allowed = {"core.Wtp.expand", "parser._parser_merge_str_children", "core.Wtp._finalize_expand", "core.Wtp._finalize_expand.magic_repl"}
+    allowed = {"core.Wtp.expand", "parser._parser_merge_str_children", "core.Wtp._finalize_expand", X.cookie_replacer(ctx)[0]}
     n_sites = 0
     for dotted, m, f in ctx.index.all_functions():
         for c in walk_no_nested(f):
